@@ -395,6 +395,47 @@ def _transcripts_local(F, root):
             u.root_local = LAST_LOCAL[0][1] if LAST_LOCAL[0][0] is root else None
             u.inl = None
             h.events.append(u)
+    # updates performed by a crate-local helper that receives `&mut hasher` (absorb_xxx(&mut kmac, item))
+    for c in root.calls():
+        cal = lib.local_callee(F, c)
+        if cal is None or cal.kind == 'Closure' or cal.key == root.key:
+            continue
+        for ai, a in enumerate(c.args):
+            if not is_place(a):
+                continue
+            ty = root.local_ty(op_local(a))
+            if 'tiny_keccak::' not in ty and 'cosmian_crypto_core::Shake' not in ty:
+                continue
+            hid = hasher_id(F, root, a)
+            if hid is None or hid[0] is not root or hid[1].b not in hs:
+                continue
+            h = hs[hid[1].b]
+            for uc in cal.calls(*UPDATE):
+                rl, rp, _s, _d = base_of(cal, uc.args[0])
+                if rl != ai + 1:
+                    continue
+                u = Upd()
+                u.call, u.body = uc, cal
+                l, path, ser, dty = base_of(cal, uc.args[1])
+                u.via = 'serialize' if ser is not None else None
+                u.dtype = strip_ref(ser.self_ty or '') if ser is not None else (dty if dty is not None else
+                                                                               (strip_ref(cal.local_ty(l)) if l is not None else '?'))
+                u.proj = None
+                u.rb = c.b
+                u.kind = 'iter' if depth.get(c.b, 0) > 0 else 'one'
+                u.cond = None
+                u.inl = None
+                if l is not None and cal.is_param(l) and l - 1 < len(c.args) and is_place(c.args[l - 1]):
+                    l2, p2, _s2, _d2 = base_of(root, c.args[l - 1])
+                    org, rest = origin_of(F, root, l2, tuple(p2) + tuple(path), outs)
+                    u.origin = org + (''.join('.' + x for x in rest) if rest else '')
+                    u.root_ty, u.root_path = LAST_ROOT[0]
+                    u.root_local = LAST_LOCAL[0][1] if LAST_LOCAL[0][0] is root else None
+                else:
+                    org, rest = origin_of(F, cal, l, path, {})
+                    u.origin = 'helper:' + org + (''.join('.' + x for x in rest) if rest else '')
+                    u.root_ty, u.root_path, u.root_local = '', (), None
+                h.events.append(u)
     for h in hlist:
         h.events.sort(key=lambda u: (order.get(u.rb, 10 ** 6), u.call.ln))
     return hlist
